@@ -13,6 +13,15 @@ KINDS = ["dangling", "fifo", "socket", "dotdot", "dotbs", "bsbs", "enoent", "eac
 # handler that keys on the name must cope with an entry it cannot stat or open just the same
 SUFFIXES = [".html", ".gophermap", ".mbox", ".zip", ".pyg", ".tal", ".txt.gz"]
 SUFFIX_KINDS = ["dangling", "enoent", "vanish"]
+# fault kinds whose stat / open fails: these also get the request repeated within the directory cache's lifetime
+REPEAT_KINDS = {"dangling", "enoent", "eacces", "vanish", "openfail", "stat2fail", "dot-dangling", "dot-dotdot-link"}
+# the handler chain accepts the child (stat says regular file) but the file-system call it then makes fails:
+# open() for the HTML title, the second stat of a *.gophermap file, ...
+CALL_KINDS = ["openfail:.html", "openfail:.txt", "openfail:.mbox", "stat2fail:.gophermap", "stat2fail:.html",
+              "stat2fail:.txt", "openfail:.gophermap"]
+# name classes for a faulty entry: its name ends up in the not-found message and in the log
+NAME_CLASSES = ["-caf\udce9-du-jour", "-%s%d%(x)s%", "-cr\rlf\ntab\tctl\x01", "-" + "L" * 180, "-\u00e9\u20ac\U0001f600",
+                "-sp ace \"quoted\" 'x'"]
 DOT_KINDS = ["dot-dangling", "dot-fifo", "dot-socket",
              # dot-prefixed names that also fail the selector filter (editor swap files, the `..data` entries of
              # mounted config volumes, a file literally called `...`), as regular file, dangling link and directory
@@ -32,6 +41,19 @@ def fault_entry(pre, letter, kind):
     if kind == "socket":
         n = letter + "sock" + suf
         return n, [{"path": tp(pre + n), "kind": "socket"}], None
+    if kind in ("openfail", "stat2fail"):
+        n = letter + "locked" + (suf or ".html")
+        data = "<html><head><title>Locked</title></head></html>\n" if n.endswith(".html") else "locked\n"
+        spec = {"call": "open", "from": 1, "errno": "EACCES"} if kind == "openfail" else \
+               {"call": "stat", "from": 2, "errno": "ENOENT"}
+        return n, [{"path": tp(pre + n), "data": data}], spec
+    if kind == "sidecar-fifo":
+        # a FIFO where a sidecar file is expected: next to a good file, and as the .abstract of a sub-directory
+        n = letter + "doc.txt"
+        return n + ".abstract", [{"path": tp(pre + n), "data": "doc\n"}, {"path": tp(pre + n + ".abstract"), "kind": "fifo"}], None
+    if kind == "sidecar-fifo-dir":
+        n = letter + "dir"
+        return n + "/.abstract", [{"path": tp(pre + n), "kind": "dir"}, {"path": tp(pre + n + "/.abstract"), "kind": "fifo"}], None
     if kind == "vanish":
         # deleted between the enumeration of the directory and the inspection of the entry
         n = letter + "vanish" + (suf or ".txt")
@@ -87,6 +109,7 @@ def scenario(dirsel, faults):
         else:
             tree.append({"path": pre + g, "data": "good %s\n" % g})
     statf = {}
+    callf = {}
     names = []
     vanish = []
     for pos, kind in faults:
@@ -95,9 +118,12 @@ def scenario(dirsel, faults):
         names.append(n)
         if sf == "vanish":
             vanish.append(n)
+        elif isinstance(sf, dict):
+            callf[n] = sf
         elif sf:
             statf[n] = sf
-    return {"tree": tree, "dir": dirsel, "stat_faults": statf, "vanish": vanish, "faulty": names, "faults": faults}
+    return {"tree": tree, "dir": dirsel, "stat_faults": statf, "call_faults": callf, "vanish": vanish, "faulty": names,
+            "faults": faults}
 
 
 def success_with_all(proto, out, base):
@@ -140,6 +166,16 @@ def run(tier):
         for j, kind in enumerate(SUFFIX_KINDS):
             scenarios.append(scenario(["/d", "/"][k % 2], [((i + j) % len(LETTERS), kind + ":" + suf)]))
             k += 1
+    nbase = len(scenarios)
+    for i, kind in enumerate(CALL_KINDS + ["sidecar-fifo", "sidecar-fifo-dir"]):
+        scenarios.append(scenario(["/d", "/"][k % 2], [(i % len(LETTERS), kind)]))
+        k += 1
+    for i, cls in enumerate(NAME_CLASSES):
+        for j, kind in enumerate(["dangling", "fifo", "vanish", "enoent"] if thorough else ["dangling", "vanish"]):
+            scenarios.append(scenario(["/d", "/"][k % 2], [((i + j) % len(LETTERS), kind + ":" + cls)]))
+            k += 1
+    for sc in scenarios[len(LETTERS) * len(KINDS):]:
+        sc["sweep"] = True      # sweeps over names / suffixes / call faults: three protocol syntaxes are enough
     pairs = []
     for p1 in range(len(LETTERS)):
         for p2 in range(p1 + 1, len(LETTERS)):
@@ -161,14 +197,26 @@ def run(tier):
     jobs = []
     for sc in scenarios:
         reqs = []
-        for proto in gen.PROTOCOLS:
+        for proto in (gen.PROTOCOLS if (thorough or not sc.get("sweep")) else ["gopher", "http", "gemini"]):
             data, tls = gen.request_bytes(proto, sc["dir"])
             reqs.append({"data": gen.lat(data), "tls": tls, "proto": proto})
         jobs.append({"op": "c12_faults", "tree": sc["tree"], "dir": sc["dir"], "stat_faults": sc["stat_faults"],
-                     "vanish": sc["vanish"], "kinds": ["umn", "dir"], "perms": ["natural", "reversed"], "config": CONFIG,
-                     "requests": reqs, "repeat_requests": [q for q in reqs if q["proto"] in ("gopher", "http")]})
+                     "vanish": sc["vanish"], "call_faults": sc["call_faults"], "real_logger": True, "kinds": ["umn", "dir"], "perms": ["natural", "reversed"], "config": CONFIG,
+                     "requests": reqs,
+                     "repeat_requests": [q for q in reqs if q["proto"] in ("gopher", "http")]
+                     if any(kd.split(":")[0] in REPEAT_KINDS for _, kd in sc["faults"]) else []})
     res = impl_run_parallel(jobs, chunks=12)
     umnlib.check_ok(res)
+
+    def tag_for(sc, only_dot):
+        kinds = [kd.split(":")[0] for _, kd in sc["faults"]]
+        if only_dot:
+            return "c12-dotfile-aborts-listing"
+        if kinds and all(kd in ("openfail", "stat2fail") for kd in kinds):
+            return "c12-unreadable-child-aborts-listing"
+        if kinds and all(kd.startswith("sidecar-fifo") for kd in kinds):
+            return "c12-sidecar-fifo-blocks-listing"
+        return "c12-child-aborts-listing"
 
     cases = []
     meta = []
@@ -186,8 +234,10 @@ def run(tier):
         only_dot = bool(sc["faults"]) and all(kd.startswith("dot-") for _, kd in sc["faults"])
         for kind in ("umn", "dir"):
             run_ = r["res"]["runs"][kind]
-            cases.append(umnlib.listing_case(run_, kind))
-            meta.append((sc, kind))
+            if not any(c["kind"] == "blocks" for c in run_["world"]["children"]):
+                # (a call that never returns is outside the model's vocabulary; the oracle reports it)
+                cases.append(umnlib.listing_case(run_, kind))
+                meta.append((sc, kind))
             # handler level: prepare() succeeds and keeps every good entry
             for g in run_["groups"]:
                 res_ = g["result"]
@@ -196,7 +246,7 @@ def run(tier):
                 if not ok:
                     fails += 1
                     found = True
-                    tag_ = "c12-dotfile-aborts-listing" if only_dot else "c12-child-aborts-listing"
+                    tag_ = tag_for(sc, only_dot)
                     report((tag_, kind, "prepare"),
                                   {"what": "one unservable entry takes down the listing of its directory (handler.prepare)",
                                    "handler": kind, "faults": sc["faults"], "faulty_names": sc["faulty"],
@@ -213,7 +263,7 @@ def run(tier):
                 if not ok:
                     fails += 1
                     found = True
-                    tag_ = "c12-dotfile-aborts-listing" if only_dot else "c12-child-aborts-listing"
+                    tag_ = tag_for(sc, only_dot)
                     report((tag_, kind, rq["proto"]),
                                   {"what": "one unservable entry takes down the listing of its directory: " + why,
                                    "handler": kind, "protocol": rq["proto"], "request_latin1": rq["data"], "tls": rq["tls"],
@@ -234,7 +284,7 @@ def run(tier):
                     if not ok:
                         fails += 1
                         found = True
-                        tag_ = "c12-dotfile-aborts-listing" if only_dot else "c12-child-aborts-listing"
+                        tag_ = tag_for(sc, only_dot)
                         report((tag_, kind, rq["proto"], "cache-" + which),
                                {"what": "one unservable entry takes down the listing of its directory (%s request with the "
                                         "directory cache enabled): %s" % (which, why),
